@@ -40,24 +40,38 @@ func resolveServicesEnvironment(dict map[string]any, environment types.Mapping) 
 		if !ok {
 			continue
 		}
-		if mapping, ok := serviceConfig["environment"].(map[string]any); ok {
-			// mapping syntax: a key without value is resolved like a bare name of the list syntax
-			for key, value := range mapping {
-				if value != nil {
-					continue
-				}
-				if found, ok := environment[key]; ok {
-					mapping[key] = found
-				}
+		if resolved, ok := resolveValueless(serviceConfig["environment"], environment); ok {
+			serviceConfig["environment"] = resolved
+		}
+		// build arguments without value are taken from the environment the same way
+		if build, ok := serviceConfig["build"].(map[string]any); ok {
+			if resolved, ok := resolveValueless(build["args"], environment); ok {
+				build["args"] = resolved
 			}
-			continue
 		}
-		serviceEnv, ok := serviceConfig["environment"].([]any)
-		if !ok {
-			continue
+		services[service] = serviceConfig
+	}
+	dict["services"] = services
+}
+
+// resolveValueless gives the names written without a value (`[FOO]` or `{FOO: }`) the value the
+// environment has for them, if any
+func resolveValueless(value any, environment types.Mapping) (any, bool) {
+	switch v := value.(type) {
+	case map[string]any:
+		// mapping syntax: a key without value is resolved like a bare name of the list syntax
+		for key, value := range v {
+			if value != nil {
+				continue
+			}
+			if found, ok := environment[key]; ok {
+				v[key] = found
+			}
 		}
+		return v, true
+	case []any:
 		envs := []any{}
-		for _, env := range serviceEnv {
+		for _, env := range v {
 			varEnv, ok := env.(string)
 			if !ok {
 				continue
@@ -69,10 +83,9 @@ func resolveServicesEnvironment(dict map[string]any, environment types.Mapping) 
 				envs = append(envs, varEnv)
 			}
 		}
-		serviceConfig["environment"] = envs
-		services[service] = serviceConfig
+		return envs, true
 	}
-	dict["services"] = services
+	return nil, false
 }
 
 func resolveSecretsEnvironment(dict map[string]any, environment types.Mapping) {
